@@ -40,6 +40,7 @@ import GeoProofs.Lemmas.RELM2Ring
 import GeoProofs.Lemmas.RELM3Areal
 import GeoProofs.Lemmas.RELM3Full
 import GeoProofs.Lemmas.RELM3ArealFull
+import GeoProofs.Lemmas.RELM3MPoly
 import Mathlib.Tactic.NormNum
 
 namespace Geo.Proofs.C01
@@ -1991,6 +1992,107 @@ example : relateImpl (.point ⟨1, 1⟩) (.triangle ⟨0, 0⟩ ⟨4, 0⟩ ⟨0, 
   (relateImpl_point_eq_spec_total_partial _ _ (by decide +kernel) rfl).1
 example : relateImpl (.rect ⟨0, 0⟩ ⟨4, 2⟩) (.point ⟨4, 2⟩) = relateSpec (.rect ⟨0, 0⟩ ⟨4, 2⟩) (.point ⟨4, 2⟩) :=
   (relateImpl_point_eq_spec_total_partial _ _ (by decide +kernel) rfl).2
+
+/-! ### `DimsSpec` for valid polygons; `Point × B` for every simple type of `B` -/
+
+/-- [T] **`HasDimensions` of a polygon whose shell is a simple ring is 2** (`Polygon::dimensions` looks for three
+different coordinates at the head of the shell; two consecutive edges of a simple ring meet in their common vertex
+only, so the third distinct vertex is not the first). -/
+theorem polyDims_valid (q : Poly) (hv : polyValid q = true) : dims (.polygon q) = .two :=
+  polyDims_of_simple (Geo.Proofs.C02Q.polyValid_unpack hv).1
+
+example : dims (.polygon ⟨[⟨0, 0⟩, ⟨0, 0⟩, ⟨4, 0⟩, ⟨4, 0⟩, ⟨0, 4⟩, ⟨0, 0⟩], []⟩) = .two :=
+  polyDims_valid _ (by decide +kernel)
+
+/-- [T] **an OGC-valid polygon has an interior face sample in every arrangement** (S2 for valid polygons, holes
+included): beside an elementary sub-segment of the shell, on the side C02X `valid_side_inside` finds interior. This is
+the hypothesis `hi` of `dimsSpec_polygon_partial`. -/
+theorem polygon_interior_sample_valid (q : Poly) (hv : polyValid q = true) :
+    Spec.HasInteriorSample (parts (.polygon q)) := hasInteriorSample_polygon q hv
+
+example : Spec.HasInteriorSample (parts (.polygon ⟨[⟨0, 0⟩, ⟨4, 0⟩, ⟨4, 4⟩, ⟨0, 4⟩, ⟨0, 0⟩], [[⟨1, 1⟩, ⟨2, 1⟩, ⟨2, 2⟩, ⟨1, 1⟩]]⟩)) :=
+  polygon_interior_sample_valid _ (by decide +kernel)
+
+/-- [T] **`DimsSpec` for every operand of the validity domain that is not a GeometryCollection** — valid Polygon with
+holes, valid MultiPolygon (interior sample in the first member, boundary sample through `multiPolygon_members_apart`),
+the empty Polygon / MultiPolygon (no point at all), and the types of `dimsSpec_dom_partial`. Full statement (every
+operand of the domain): open for collections (`DimsSpec` speaks about `dims (collection)`, a maximum over members). -/
+theorem dimsSpec_dom_noCollection_partial (b : Geom) (hd : inDomain b = true) (ht : notCollection b = true) :
+    Spec.DimsSpec b := dimsSpec_dom_noCollection b hd ht
+
+example : Spec.DimsSpec (.multiPolygon [⟨[⟨0, 0⟩, ⟨4, 0⟩, ⟨4, 4⟩, ⟨0, 4⟩, ⟨0, 0⟩], [[⟨1, 1⟩, ⟨2, 1⟩, ⟨2, 2⟩, ⟨1, 1⟩]]⟩,
+    ⟨[⟨4, 4⟩, ⟨8, 4⟩, ⟨8, 8⟩, ⟨4, 8⟩, ⟨4, 4⟩], []⟩]) :=
+  dimsSpec_dom_noCollection_partial _ (by decide +kernel) rfl
+
+/-- [T] **the disjoint-envelope shortcut returns the specification's matrix — the whole matrix — for any two operands
+of the validity domain that are not GeometryCollections** (any arithmetic): no `DimsSpec` hypothesis left. -/
+theorem relateImpl_disjoint_eq_spec_noCollection_partial (ar : Arith) {a b : Geom} (ha : inDomain a = true)
+    (hb : inDomain b = true) (hta : notCollection a = true) (htb : notCollection b = true)
+    (h : envelopesMeet a b = false) : relateImplWith ar a b = some (relateSpec a b) :=
+  relateImpl_disjoint_eq_spec_dom_partial ar ha hb h (dimsSpec_dom_noCollection a ha hta) (dimsSpec_dom_noCollection b hb htb)
+
+/-- a polygon with a hole against a far triangle: no hypothesis left -/
+example : relateImpl? (.polygon ⟨[⟨0, 0⟩, ⟨4, 0⟩, ⟨4, 4⟩, ⟨0, 4⟩, ⟨0, 0⟩], [[⟨1, 1⟩, ⟨2, 1⟩, ⟨2, 2⟩, ⟨1, 1⟩]]⟩)
+      (.triangle ⟨6, 0⟩ ⟨8, 0⟩ ⟨6, 3⟩) =
+    some (relateSpec (.polygon ⟨[⟨0, 0⟩, ⟨4, 0⟩, ⟨4, 4⟩, ⟨0, 4⟩, ⟨0, 0⟩], [[⟨1, 1⟩, ⟨2, 1⟩, ⟨2, 2⟩, ⟨1, 1⟩]]⟩)
+      (.triangle ⟨6, 0⟩ ⟨8, 0⟩ ⟨6, 3⟩)) :=
+  relateImpl_disjoint_eq_spec_noCollection_partial _ (by decide +kernel) (by decide +kernel) rfl rfl (by decide +kernel)
+
+/-- Line, LineString, MultiLineString, Polygon, MultiPolygon, Rect, Triangle -/
+def extendedType (b : Geom) : Bool := lineType b || boxType b || polyType b
+
+/-- [T] **`relateImpl (Point p) B = relateSpec (Point p) B` and `relateImpl B (Point p) = relateSpec B (Point p)` — the
+whole matrix, both paths of `compute_intersection_matrix`, the total function, no hypothesis but the validity domain —
+for `B` a Line, LineString, MultiLineString, Polygon (holes, holes touching the shell), MultiPolygon (members touching
+at points), Rect or Triangle.** The model of the implementation of `relate`, checked against the real code on every
+run, is PROVED equal to the DE-9IM specification for a point against every such geometry.
+Full statement (every `B` of the domain): open for `B` a Point / MultiPoint written as another type than the first
+operand (rows proved, Exterior row not), and for GeometryCollections (rows proved for one-kind collections; `DimsSpec`
+of a collection and "an envelope implies an edge" missing). -/
+theorem relateImpl_point_eq_spec_extendedType_partial (p : Pt) (b : Geom) (hd : inDomain b = true)
+    (ht : extendedType b = true) :
+    relateImpl (.point p) b = relateSpec (.point p) b ∧ relateImpl b (.point p) = relateSpec b (.point p) := by
+  simp only [extendedType, Bool.or_eq_true] at ht
+  rcases ht with ht | ht
+  · exact relateImpl_point_eq_spec_total_partial p b hd (by simpa [fullMatrixType] using ht)
+  · have hz : noZeroLine b = true := by cases b <;> first | rfl | cases ht
+    have hc : ringsClosed b = true := ringsClosed_of_dom hd ht
+    have hnc : notCollection b = true := by cases b <;> first | rfl | cases ht
+    have hs := relateImpl_never_panics (.point p) b rfl hz rfl hc
+    have h1 : relateImpl (.point p) b = relateSpec (.point p) b := by
+      obtain ⟨m, hm⟩ := Option.isSome_iff_exists.1 hs
+      unfold relateImpl
+      rw [hm]
+      show m = relateSpec (.point p) b
+      cases henv : envelopesMeet (.point p) b with
+      | true =>
+        have hg : relateGraph Arith.exact (.point p) b = some m := by
+          unfold relateImpl? relateImplWith at hm
+          rw [henv, if_pos rfl] at hm
+          exact hm
+        exact point_polyType_graph p b hd ht henv hg
+      | false =>
+        have := relateImpl_disjoint_eq_spec_noCollection_partial Arith.exact (a := .point p) (b := b) rfl hd rfl hnc henv
+        unfold relateImpl? at hm
+        rw [this] at hm
+        exact (Option.some.inj hm).symm
+    refine ⟨h1, ?_⟩
+    rw [relateImpl_transpose_closed (.point p) b rfl hz rfl hc, h1, relateSpec_transpose (.point p) b]
+
+/-- the point where a hole touches the shell, a point in the hole, a point shared by two members of a MultiPolygon -/
+example : relateImpl (.point ⟨2, 0⟩) (.polygon ⟨[⟨0, 0⟩, ⟨4, 0⟩, ⟨4, 4⟩, ⟨0, 4⟩, ⟨0, 0⟩], [[⟨2, 0⟩, ⟨3, 2⟩, ⟨1, 2⟩, ⟨2, 0⟩]]⟩) =
+    relateSpec (.point ⟨2, 0⟩) (.polygon ⟨[⟨0, 0⟩, ⟨4, 0⟩, ⟨4, 4⟩, ⟨0, 4⟩, ⟨0, 0⟩], [[⟨2, 0⟩, ⟨3, 2⟩, ⟨1, 2⟩, ⟨2, 0⟩]]⟩) :=
+  (relateImpl_point_eq_spec_extendedType_partial _ _ (by decide +kernel) rfl).1
+
+example : relateImpl (.point ⟨2, 1⟩) (.polygon ⟨[⟨0, 0⟩, ⟨4, 0⟩, ⟨4, 4⟩, ⟨0, 4⟩, ⟨0, 0⟩], [[⟨2, 0⟩, ⟨3, 2⟩, ⟨1, 2⟩, ⟨2, 0⟩]]⟩) =
+    relateSpec (.point ⟨2, 1⟩) (.polygon ⟨[⟨0, 0⟩, ⟨4, 0⟩, ⟨4, 4⟩, ⟨0, 4⟩, ⟨0, 0⟩], [[⟨2, 0⟩, ⟨3, 2⟩, ⟨1, 2⟩, ⟨2, 0⟩]]⟩) :=
+  (relateImpl_point_eq_spec_extendedType_partial _ _ (by decide +kernel) rfl).1
+
+example : relateImpl (.multiPolygon [⟨[⟨0, 0⟩, ⟨4, 0⟩, ⟨4, 4⟩, ⟨0, 4⟩, ⟨0, 0⟩], []⟩, ⟨[⟨4, 4⟩, ⟨8, 4⟩, ⟨8, 8⟩, ⟨4, 8⟩, ⟨4, 4⟩], []⟩])
+      (.point ⟨4, 4⟩) =
+    relateSpec (.multiPolygon [⟨[⟨0, 0⟩, ⟨4, 0⟩, ⟨4, 4⟩, ⟨0, 4⟩, ⟨0, 0⟩], []⟩, ⟨[⟨4, 4⟩, ⟨8, 4⟩, ⟨8, 8⟩, ⟨4, 8⟩, ⟨4, 4⟩], []⟩])
+      (.point ⟨4, 4⟩) :=
+  (relateImpl_point_eq_spec_extendedType_partial _ _ (by decide +kernel) rfl).2
 
 end Impl3
 
